@@ -216,7 +216,8 @@ def encodeNumber (v : PyVal) (len : Nat) (signed : Bool) (res ofs : Lit) : Excep
     else
       let n := rhe (pyDiv (subLit x ofs) (litNum res))
       let lo : Int := if signed then -((2 ^ (len - 1) : Nat) : Int) else 0
-      let hi : Int := if signed then ((2 ^ (len - 1) : Nat) : Int) - 2 else ((2 ^ len : Nat) : Int) - 2
+      let hi : Int := if signed then ((2 ^ (len - 1) : Nat) : Int) - 2
+                      else if len = 1 then 1 else ((2 ^ len : Nat) : Int) - 2
       if n < lo ∨ n > hi then .error .range
       else .ok (if signed ∧ n < 0 then ((2 ^ len : Nat) : Int) + n else n)
   | _ => .error .type_
